@@ -12,6 +12,7 @@ from __future__ import annotations
 import ast
 import datetime as dt
 import json
+import random
 import re
 from zoneinfo import ZoneInfo
 
@@ -75,8 +76,13 @@ def truncate(V, p):
     return dt.datetime(y, m, d, H, M, S, f, tzinfo=tz)
 
 
-def gen_value(rng, p):
-    """a datetime in the representable range of pattern `p`"""
+def gen_value(rng, p, small=False):
+    """a datetime in the representable range of pattern `p`; `small`: every field is also a valid value of the neighbouring fields
+    (day <= 12, hour <= 12, minute / second <= 23), so that a text stays valid when a reading permutes them"""
+    if small:
+        V = gen_value(rng, p)
+        return V.replace(day=rng.randint(1, 12), hour=rng.randint(0, 12), minute=rng.randint(0, 23), second=rng.randint(0, 23),
+                         microsecond=rng.choice([0, 0, V.microsecond]))
     ds = directives(p)
     r = rng.random()
     if 'y' in ds:
@@ -195,24 +201,46 @@ def pat_expr(engine, po):
     return f'VAware{nm}Pattern[{tz!r}, {args}]'
 
 
-def ty_src(t):
+def ty_src(t, prefix=''):
     k = t['k']
-    if k == 'str':
-        return 'str'
+    if k in ('str', 'int', 'float'):
+        return k
+    if k == 'none':
+        return 'None'
+    if k in ('namedtuple', 'typeddict'):
+        return f'{prefix}_H{t["nid"]}'
+    if k == 'union':
+        return 'Union[' + ', '.join(ty_src(x, prefix) for x in t['a']) + ']'
     if k == 'leaf':
         return (SUBCLS if t['sub'] else BASE)[t['kind']].__name__
     if k == 'pat':
         return f'P{t["pid"]}'
     a = t['a']
     if k == 'optional':
-        return f'Optional[{ty_src(a[0])}]'
+        return f'Optional[{ty_src(a[0], prefix)}]'
     if k == 'list':
-        return f'list[{ty_src(a[0])}]'
+        return f'list[{ty_src(a[0], prefix)}]'
     if k == 'tuple':
-        return 'tuple[' + ', '.join(ty_src(x) for x in a) + ']'
+        return 'tuple[' + ', '.join(ty_src(x, prefix) for x in a) + ']'
     if k == 'dict':
-        return f'dict[{ty_src(a[0])}, {ty_src(a[1])}]'
+        return f'dict[{ty_src(a[0], prefix)}, {ty_src(a[1], prefix)}]'
     raise ValueError(k)
+
+
+SCALAR_NODES = ('str', 'int', 'float', 'none')
+
+
+def helper_defs(t, prefix, out):
+    """class statements of the NamedTuple / TypedDict nodes of an annotation, innermost first"""
+    if t['k'] in SCALAR_NODES + ('leaf', 'pat'):
+        return out
+    for x in t['a']:
+        helper_defs(x, prefix, out)
+    if t['k'] in ('namedtuple', 'typeddict'):
+        base = 'NamedTuple' if t['k'] == 'namedtuple' else 'TypedDict'
+        out.append(f'class {prefix}_H{t["nid"]}({base}):')
+        out += [f'    {n}: {ty_src(x, prefix)}' for n, x in zip(t['names'], t['a'])]
+    return out
 
 
 SRC_HEAD = '''
@@ -256,11 +284,13 @@ def render(cm, cname):
     lines = [SRC_HEAD]
     for pid, po in enumerate(cm['pats']):
         lines.append(f'P{pid} = {pat_expr(cm["engine"], po)}')
+    for f in cm['fields']:
+        helper_defs(f['ty'], cname, lines)
     lines += ['@dataclass', f'class {cname}(JSONWizard):']
     if cm['engine'] == 'v1':
         lines += ['    class _(JSONWizard.Meta):', '        v1 = True']
     for i, f in enumerate(cm['fields']):
-        s = ty_src(f['ty'])
+        s = ty_src(f['ty'], cname)
         if f['ann'] is not None:
             args = {None: f'P{f["ann"]}', 'before': f"'a note', P{f['ann']}", 'after': f"P{f['ann']}, 'a note'"}[f.get('extra')]
             s = f'Annotated[{s}, {args}]'
@@ -275,7 +305,7 @@ def leaves(t, ann, out):
         out.append((t['kind'], t['sub'], ann, False))
     elif k == 'pat':
         out.append((t['kind'], False, t['pid'], True))
-    elif k != 'str':
+    elif k not in SCALAR_NODES:
         for x in t['a']:
             leaves(x, ann, out)
     return out
@@ -451,6 +481,114 @@ def gen_class(rng):
     return cm, cat
 
 
+# --------------------------------------------------------------------------- directed families (their own seeded stream)
+
+# DIMENSION patterns whose texts are ISO-8601 shaped but read differently (day / month, hour / minute, minute / second swapped; a sign
+# that ISO reads as an offset): the documented precedence (ISO first for date / datetime on both engines; for TIME patterns containing
+# '-' / '+' the default engine documents pattern first, `expect_leaf` admits both) decides what a text valid under both readings means,
+# and the field's own ISO dump is such a text.
+ISO_SHAPED = {
+    'date': ['%Y-%d-%m', '%Y%d%m', '%Y-%d-%m', '%Y-%m-%d'],
+    'time': ['%M:%H', '%S:%M:%H', '%M:%H:%S', '%H:%S:%M', '%H:%M+%S', '%H:%M-%S'],
+    'datetime': ['%Y-%m-%d %M:%H', '%Y-%d-%m %H:%M', '%Y-%d-%mT%H:%M:%S', '%Y-%m-%dT%M:%H:%S', '%Y-%m-%d %H:%S:%M',
+                 '%Y-%d-%m %H:%M:%S', '%Y%d%mT%H%M%S', '%Y-%m-%dT%H:%M+%S', '%Y-%m-%d %M:%H:%S'],
+}
+
+
+def gen_iso_shaped_class(rng):
+    eng = rng.choice(['default', 'default', 'v1'])
+    cm = {'engine': eng, 'pats': [], 'fields': [], 'small': True}
+    used = set()
+    for n in range(rng.choice([1, 1, 2])):
+        kind = rng.choice(['date', 'date', 'datetime', 'datetime', 'time'])
+        form = rng.choice(['ann', 'ann', 'sub'])
+        sub = form == 'ann' and rng.random() < 0.3
+        if form == 'ann' and ('t', kind, sub) in used:
+            continue
+        if form == 'ann':
+            used.add(('t', kind, sub))
+        pid = new_pat(rng, cm, kind, form)
+        po = cm['pats'][pid]
+        po['patterns'][0] = rng.choice(ISO_SHAPED[kind])
+        po['patterns'] = list(dict.fromkeys(po['patterns']))
+        if kind == 'time' and not ('-' in po['patterns'][0] or '+' in po['patterns'][0]):
+            # KEPT OUT (genuine defect of the unchanged v1 engine, <scratch>/findings/v1-time-dash-first-permuted-pattern-dump-reload.py):
+            # a time position whose pattern LIST has a permuted ISO-shaped pattern next to one containing '-' / '+' tries the patterns
+            # before ISO for the whole list, so the field's own dump is re-read with swapped fields
+            po['patterns'] = [p for p in po['patterns'] if not ('-' in p or '+' in p)]
+        if len({(po2['kind'], tuple(po2['patterns']), is_aware(po2)) for po2 in cm['pats'] if po2['form'] == 'sub'}) < \
+                sum(po2['form'] == 'sub' for po2 in cm['pats']):
+            cm['pats'].pop()
+            continue
+        add_field(rng, cm, kind, sub, form, container=rng.random() < 0.4, pid=pid)
+    return cm, 'iso-shaped'
+
+
+# DIMENSION annotated types whose v1 loader is generated as a function of its own (NamedTuple, TypedDict, a Union with several
+# non-None members), directly under Annotated[..., Pattern] and inside / around the in-line containers: the pattern has to reach
+# every date / time position "element-wise", however the code generator splits the annotation into functions.  Also the subscripted
+# form as a member type, and both engines for NamedTuple / TypedDict (the default engine's Union does not try-parse strings by design).
+def gen_helper_class(rng):
+    eng = rng.choice(['v1', 'v1', 'v1', 'default'])
+    cm = {'engine': eng, 'pats': [], 'fields': []}
+    kind = rng.choice(['date', 'time', 'datetime'])
+    form = rng.choice(['ann', 'ann', 'ann', 'sub'])
+    sub = form == 'ann' and rng.random() < 0.25
+    pid = new_pat(rng, cm, kind, form)
+    lf = leaf_t(kind, sub) if form == 'ann' else {'k': 'pat', 'kind': kind, 'pid': pid}
+    nids = iter(range(100))
+
+    def member(depth):
+        r = rng.random()
+        if r < 0.5:
+            return lf
+        if r < 0.62:
+            return T('str')
+        if r < 0.72:
+            return T('list', lf)
+        if r < 0.8:
+            return T('tuple', lf, T('str'))
+        if r < 0.88 and lf['k'] == 'leaf':
+            return T('optional', lf)
+        if depth > 0:
+            return helper(depth - 1)
+        return lf
+
+    def helper(depth):
+        which = rng.choice(['namedtuple', 'namedtuple', 'typeddict', 'typeddict', 'union'])
+        if which == 'union' and (eng != 'v1' or form != 'ann'):
+            which = rng.choice(['namedtuple', 'typeddict'])
+        if which == 'union':
+            others = rng.choice([['int'], ['float'], ['int', 'none'], ['none', 'int'], ['int', 'float'], ['float', 'none']])
+            return T('union', lf, *[T(o) for o in others])
+        n = rng.choice([1, 2, 2, 3])
+        ms = [member(depth) for _ in range(n)]
+        ms[rng.randrange(n)] = lf
+        names = sorted(rng.sample(['a', 'b', 'at', 'label', 'start', 'end', 'when', 'x'], n))     # (see canon_enc)
+        return {'k': which, 'nid': next(nids), 'names': names, 'a': ms}
+
+    h = helper(rng.choice([0, 1, 1]))
+    r = rng.random()
+    if r < 0.45:
+        ty = h
+    elif r < 0.6:
+        ty = T('list', h)
+    elif r < 0.72:
+        ty = T('dict', T('str'), h)
+    elif r < 0.82:
+        ty = T('tuple', h, lf)
+    elif r < 0.92:
+        ty = T('optional', h)
+    else:
+        ty = T('dict', T('str'), T('list', h))
+    cm['fields'].append({'ty': ty, 'ann': pid if form == 'ann' else None})
+    return cm, 'helper'
+
+
+def gen_family_class(rng, j):
+    return gen_helper_class(rng) if j % 2 == 0 else gen_iso_shaped_class(rng)
+
+
 # --------------------------------------------------------------------------- documents and expectations
 
 def zone_of(tzname):
@@ -553,11 +691,11 @@ def gen_text(rng, cm, spec, mode, law):
         mode = 'pattern'
     if mode == 'pattern':
         p = rng.choice(pats)
-        V = gen_value(rng, p)
+        V = gen_value(rng, p, small=cm.get('small', False) and rng.random() < 0.6)
         s = V.strftime(p)
         law.append((p, V, s))
         return s
-    V = gen_value(rng, rng.choice(CAT[kind]))
+    V = gen_value(rng, rng.choice(CAT[kind]), small=cm.get('small', False) and rng.random() < 0.6)
     return iso_text(rng, kind, V)
 
 
@@ -580,6 +718,21 @@ def gen_doc(rng, cm, t, ann, mode, law, top=True):
         if rng.random() < (0.5 if mode == 'none' else 0.15):
             return None, ('ok', [['none']])
         return gen_doc(rng, cm, a[0], ann, mode, law, False)
+    if k == 'union':
+        # a[0] is the date / time member, the others are int / float / None: a text goes to a[0] (pattern, ISO) or to nobody
+        if mode == 'none' and any(x['k'] == 'none' for x in a) and rng.random() < 0.5:
+            return None, ('ok', [['none']])
+        d, e = gen_doc(rng, cm, a[0], ann, mode, law, False)
+        return d, (('err', None) if e[0] == 'err' else e)       # which error a Union raises is not this property's business
+    if k == 'namedtuple':
+        j = rng.randrange(len(a))
+        docs = [gen_doc(rng, cm, x, ann, 'mix' if mode == 'junk' and i != j else mode, law, False) for i, x in enumerate(a)]
+        return [d for d, _ in docs], combine('tuple', [e for _, e in docs])
+    if k == 'typeddict':
+        j = rng.randrange(len(a))
+        docs = [gen_doc(rng, cm, x, ann, 'mix' if mode == 'junk' and i != j else mode, law, False) for i, x in enumerate(a)]
+        return ({n: d for n, (d, _) in zip(t['names'], docs)},
+                combine('dict', [pair(('ok', [['str', n]]), e) for n, (_, e) in zip(t['names'], docs)]))
     if k == 'list':
         n = rng.choice([0, 1, 2, 3])
         docs = [gen_doc(rng, cm, a[0], ann, 'mix' if mode == 'junk' and i != 0 else mode, law, False) for i in range(n)]
@@ -816,22 +969,67 @@ def probe_quirks():
 
 # --------------------------------------------------------------------------- evaluation
 
-def eval_impl(Cls, engine, name, doc):
+def canon_enc(t, e):
+    """`enc_pv` form with the items of every TypedDict position in key order (the loaders fill a TypedDict in the iteration order of
+    its `__required_keys__`, a frozenset: the order of the loaded dict is not part of its value)"""
+    k = t['k']
+    if not isinstance(e, list) or k in SCALAR_NODES + ('leaf', 'pat'):
+        return e
+    a = t['a']
+    if k in ('optional', 'union'):
+        return canon_enc(a[0], e)
+    if k == 'list' and e[0] == 'list':
+        return ['list', [canon_enc(a[0], x) for x in e[1]]]
+    if k in ('tuple', 'namedtuple') and e[0] == 'tuple' and len(e[1]) == len(a):
+        return ['tuple', [canon_enc(x, y) for x, y in zip(a, e[1])]]
+    if k == 'dict' and e[0] == 'dict':
+        return ['dict', [[canon_enc(a[0], kk), canon_enc(a[1], vv)] for kk, vv in e[1]]]
+    if k == 'typeddict' and e[0] == 'dict':
+        by = {n: x for n, x in zip(t['names'], a)}
+        items = sorted(e[1], key=lambda kv: json.dumps(kv[0]))
+        return ['dict', [[kk, canon_enc(by[kk[1]], vv) if kk[0] == 'str' and kk[1] in by else vv] for kk, vv in items]]
+    return e
+
+
+def canon_dump(t, d):
+    """the JSON dump with the keys of every TypedDict position in key order"""
+    k = t['k']
+    if k in SCALAR_NODES + ('leaf', 'pat') or d is None:
+        return d
+    a = t['a']
+    if k in ('optional', 'union'):
+        return canon_dump(a[0], d)
+    if k == 'list' and isinstance(d, list):
+        return [canon_dump(a[0], x) for x in d]
+    if k in ('tuple', 'namedtuple') and isinstance(d, list) and len(d) == len(a):
+        return [canon_dump(x, y) for x, y in zip(a, d)]
+    if k == 'dict' and isinstance(d, dict):
+        return {kk: canon_dump(a[1], vv) for kk, vv in d.items()}
+    if k == 'typeddict' and isinstance(d, dict):
+        by = {n: x for n, x in zip(t['names'], a)}
+        return {kk: canon_dump(by[kk], d[kk]) if kk in by else d[kk] for kk in sorted(d)}
+    return d
+
+
+def eval_impl(Cls, engine, name, doc, ty=None):
+    td = ty is not None and 'typeddict' in json.dumps(ty)
     try:
         x = Cls.from_dict({name: doc})
     except Exception as e:
         return {'load': {'err': canon_exc(e, engine)}}, None, None
     v = getattr(x, name)
-    out = {'load': {'ok': enc_pv(v)}}
+    out = {'load': {'ok': canon_enc(ty, enc_pv(v)) if td else enc_pv(v)}}
     try:
         d = json.loads(json.dumps(x.to_dict()[name]))
     except Exception as e:
         out['dump'] = {'raised': type(e).__name__}
         return out, v, None
+    if td:
+        d = canon_dump(ty, d)
     out['dump'] = model.enc_j(d)
     try:
         y = Cls.from_dict({name: d})
-        out['reload'] = {'ok': enc_pv(getattr(y, name))}
+        out['reload'] = {'ok': canon_enc(ty, enc_pv(getattr(y, name))) if td else enc_pv(getattr(y, name))}
     except Exception as e:
         out['reload'] = {'err': canon_exc(e, engine)}
     return out, v, d
@@ -855,7 +1053,33 @@ def dumped_leaves_ok(t, d):
         return isinstance(d, list) and len(d) == len(a) and all(dumped_leaves_ok(x, y) for x, y in zip(a, d))
     if k == 'dict':
         return isinstance(d, dict) and all(dumped_leaves_ok(a[0], kk) and dumped_leaves_ok(a[1], vv) for kk, vv in d.items())
+    if k == 'union':
+        return dumped_leaves_ok(a[0], d) if isinstance(d, str) else True
+    if k == 'namedtuple':
+        return isinstance(d, list) and len(d) == len(a) and all(dumped_leaves_ok(x, y) for x, y in zip(a, d))
+    if k == 'typeddict':
+        return isinstance(d, dict) and sorted(d) == sorted(t['names']) and all(dumped_leaves_ok(x, d[n]) for n, x in zip(t['names'], a))
     return False
+
+
+def model_ty(t):
+    """the annotation in the model's type universe (DW/Model/C17.lean `PTy`), or None: a NamedTuple loads from / dumps to a list like
+    the fixed tuple of its members; a TypedDict whose members all have one type like dict[str, that type]; Unions are oracle-only"""
+    k = t['k']
+    if k in ('str', 'leaf', 'pat'):
+        return t
+    if k in ('int', 'float', 'none', 'union'):
+        return None
+    a = [model_ty(x) for x in t['a']]
+    if any(x is None for x in a):
+        return None
+    if k == 'namedtuple':
+        return T('tuple', *a)
+    if k == 'typeddict':
+        if any(json.dumps(x, sort_keys=True) != json.dumps(a[0], sort_keys=True) for x in a):
+            return None
+        return T('dict', T('str'), a[0])
+    return dict(t, a=a)
 
 
 def key_collision(doc, enc):
@@ -902,6 +1126,10 @@ def run(ctx: C.Ctx):
                 'user subclass × position (bare, list, tuple, dict keys/values, Optional, nested) × class category (single, several fields, one '
                 'pattern object shared by two types, mixed types in one container, same-type pattern pairs, patterned then plain fields) × field '
                 'specifier carrying the default (bare, field(...) with / without metadata or factory, json_field / Alias forms) × further Annotated arguments; '
+                'directed families on their own seeded stream: Annotated / subscripted patterns on NamedTuple, TypedDict and (v1) non-Optional Union '
+                'types, alone and inside / around list, dict, tuple, Optional (the pattern must reach positions loaded by separately generated '
+                'functions); ISO-shaped patterns that read ISO text differently (%Y-%d-%m, %Y-%m-%d %M:%H, %H:%S:%M, a sign ISO reads as an offset) with '
+                'values valid under both readings; '
                 'per field documents in modes pattern / ISO / mixed / junk / other-pattern / number / null; each through from_dict, to_dict, '
                 'from_dict again on the implementation (oracle: stdlib strptime/fromisoformat readings, truncation law checked) and through the '
                 'Lean model with stdlib-backed tables. Non-trivial = distinct (class model, field, document).')
@@ -915,11 +1143,17 @@ def run(ctx: C.Ctx):
     quirks = probe_quirks()
     ctx.notes['quirks_probed'] = quirks
     ncls = ctx.quick(1200, 12000)
+    nfam = ctx.quick(500, 5000)
+    main_rng, frng = rng, random.Random(f'C17:{ctx.seed}:families')
     reqs, pend = [], []
-    for i in range(ncls):
+    for i in range(ncls + nfam):
         if ctx.done(i):
             break
-        cm, cat = gen_class(rng)
+        # the directed families have their own seeded stream (the main stream is the same with and without them)
+        rng = main_rng if i < ncls else frng
+        cm, cat = gen_class(rng) if i < ncls else gen_family_class(rng, i - ncls)
+        if not cm['fields']:
+            continue
         pick_specs(rng, cm)
         law = []
         loads = []       # (field index, mode, doc, expectation)
@@ -927,7 +1161,7 @@ def run(ctx: C.Ctx):
             modes = ['pattern', 'pattern', 'iso', 'junk', 'mix', 'cross']
             if f['ty']['k'] in ('leaf', 'pat'):
                 modes += ['number']
-            if 'optional' in json.dumps(f['ty']):
+            if 'optional' in json.dumps(f['ty']) or '"none"' in json.dumps(f['ty']):
                 modes += ['none']
             for mode in modes:
                 if mode == 'number':
@@ -969,7 +1203,7 @@ def run(ctx: C.Ctx):
                 ctx.seen(f'{cm["engine"]}:{cat}:{mode}', case)
                 if f.get('spec', 'plain') != 'plain' or f.get('extra'):
                     ctx.seen(f'{cm["engine"]}:spec:{f.get("spec")}:{"ann" if f["ann"] is not None else "sub-or-plain"}', case)
-                out, v, d = eval_impl(Cls, cm['engine'], name, doc)
+                out, v, d = eval_impl(Cls, cm['engine'], name, doc, f['ty'])
                 impl_outs.append(out)
                 docs_all.append(doc)
                 if d is not None:
@@ -1022,10 +1256,14 @@ def run(ctx: C.Ctx):
                     if not okk:
                         ctx.count('law:iso-roundtrip:outside')
             # ---------------- model request
+            mtys = [model_ty(f['ty']) for f in cm['fields']]
+            if any(t is None for t in mtys):
+                ctx.count('model_skipped:union-or-mixed-typeddict')      # outside the model's type universe: oracle only
+                continue
             req = {'op': 'c17', 'engine': cm['engine'], 'quirks': quirks,
                    'pats': [{'patterns': po['patterns'], 'tz': (None if po['tz'] is None else ['zone', po['tz']]),
                              'aware': is_aware(po)} for po in cm['pats']],
-                   'fields': [{'ty': f['ty'], 'ann': f['ann']} for f in cm['fields']],
+                   'fields': [{'ty': t, 'ann': f['ann']} for t, f in zip(mtys, cm['fields'])],
                    'loads': [[fi, model.enc_j(doc)] for fi, _m, doc, _e in loads],
                    'std': std_tables(cm, docs_all)}
             reqs.append(req)
